@@ -360,8 +360,153 @@ pub fn scenarios(tier: Tier) -> Vec<Arc<dyn Scenario>> {
     out
 }
 
+// ---- clients on several connections lose them one after the other ----
+
+/// The server has a local client and one remote client on each of two connections; the connections fail
+/// one after the other (each remote client with or without a call in flight); the local client must keep
+/// being served.
+pub struct TwoConnScenario {
+    pub flavour: Flavour,
+    pub calls_in_flight: bool,
+}
+
+#[derive(Default)]
+struct TwoObs {
+    err: Option<String>,
+    local_calls: Vec<String>,
+    serve_running: Option<bool>,
+    serve_result: Option<String>,
+}
+
+impl Scenario for TwoConnScenario {
+    fn id(&self) -> String {
+        format!("c19-two-connections/{:?}/inflight{}", self.flavour, self.calls_in_flight as u8)
+    }
+
+    fn start(&self, env: Env) -> (BoxFuture<'static, ()>, Judge) {
+        let obs = shared(TwoObs::default());
+        let o2 = obs.clone();
+        let (flavour, in_flight) = (self.flavour, self.calls_in_flight);
+        let root = async move {
+            env.explore(false);
+            let link = LinkOpts { capacity: 2, deliver_cap: 2, eof_on_drop: true };
+            let c1 = base_pair::<ShipA, ShipB, (), ()>(&env, typed_cfg(), typed_cfg(), link).await;
+            let c2 = super::c04::base_pair_named::<ShipA, ShipB, (), ()>(&env, "S2", 3, "C", 4, typed_cfg(), typed_cfg(), link).await;
+            let (((mut s1_tx, _s1_rx, k1, k2), (_a_tx, mut a_rx, k3, k4)), ((mut s2_tx, _s2_rx, k5, k6), (_c_tx, mut c_rx, k7, k8))) = match (c1, c2) {
+                (Ok(x), Ok(y)) => (x, y),
+                _ => {
+                    o2.lock().unwrap().err = Some("connections".into());
+                    return;
+                }
+            };
+            let (obj, _log, gate): (Obj, Arc<Mutex<Vec<Ev>>>, Arc<Gate>) = Obj::new();
+            let (client, server_task): (AcctMClient, tokio::task::JoinHandle<String>) = match flavour {
+                Flavour::SharedMut(spawn) => {
+                    let (server, client) = AcctMServerSharedMut::<_, C>::new(Arc::new(tokio::sync::RwLock::new(obj)), 2);
+                    (client, env.spawn("server", 1, async move { format!("{:?}", server.serve(spawn).await) }))
+                }
+                _ => {
+                    let (server, client) = AcctMServer::<_, C>::new(obj, 2);
+                    (client, env.spawn("server", 1, async move { format!("{:?}", server.serve().await.1) }))
+                }
+            };
+            let mut local = client.clone();
+            let (s, r) = tokio::join!(s1_tx.send(ShipA::Good(client.clone())), a_rx.recv());
+            let mut remote1 = match (s, r) {
+                (Ok(()), Ok(Some(ShipB::Good(c)))) => c,
+                _ => {
+                    o2.lock().unwrap().err = Some("ship 1".into());
+                    return;
+                }
+            };
+            let (s, r) = tokio::join!(s2_tx.send(ShipA::Good(client)), c_rx.recv());
+            let mut remote2 = match (s, r) {
+                (Ok(()), Ok(Some(ShipB::Good(c)))) => c,
+                _ => {
+                    o2.lock().unwrap().err = Some("ship 2".into());
+                    return;
+                }
+            };
+            env.quiesce().await;
+            gate.open(1000);
+            // everybody is served first
+            let r0 = (local.get().await.is_ok(), remote1.get().await.is_ok(), remote2.get().await.is_ok());
+            o2.lock().unwrap().local_calls.push(format!("before:{r0:?}"));
+            let mut pend = Vec::new();
+            if in_flight {
+                let mut c = remote1.clone();
+                pend.push(env.spawn("remote1-call", 2, async move { c.add(1).await.is_ok() }));
+                let mut c = remote2.clone();
+                pend.push(env.spawn("remote2-call", 4, async move { c.add(2).await.is_ok() }));
+            }
+            for link_idx in 0..2usize {
+                env.dir(link_idx, 0).cut();
+                env.dir(link_idx, 1).cut();
+                env.quiesce().await;
+                let r = tokio::time::timeout(Duration::from_secs(20), local.add(10)).await;
+                o2.lock().unwrap().local_calls.push(format!("after-cut{}:{}", link_idx + 1, match r {
+                    Err(_) => "hang".to_string(),
+                    Ok(r) => format!("{:?}", r.map_err(|e| format!("{e:?}").chars().take(40).collect::<String>())),
+                }));
+            }
+            env.quiesce().await;
+            let r = tokio::time::timeout(Duration::from_secs(20), local.get()).await;
+            o2.lock().unwrap().local_calls.push(format!("finally:{}", match r {
+                Err(_) => "hang".to_string(),
+                Ok(r) => format!("{:?}", r.map_err(|e| format!("{e:?}").chars().take(40).collect::<String>())),
+            }));
+            o2.lock().unwrap().serve_running = Some(!server_task.is_finished());
+            for p in pend {
+                let _ = tokio::time::timeout(Duration::from_secs(30), p).await;
+            }
+            drop((local, remote1, remote2));
+            let r = tokio::time::timeout(Duration::from_secs(10), server_task).await;
+            o2.lock().unwrap().serve_result = Some(match r {
+                Ok(Ok(s)) => s,
+                Ok(Err(e)) => format!("join:{e}"),
+                Err(_) => "still-serving".into(),
+            });
+            drop((s1_tx, a_rx, s2_tx, c_rx, k1, k2, k3, k4, k5, k6, k7, k8));
+        };
+        let judge: Judge = Box::new(move |out: &Outcome| {
+            let o = obs.lock().unwrap();
+            let mut v = Verdict::default();
+            v.findings.extend(panic_findings(out, "C19"));
+            if let Some(e) = &o.err {
+                v.fail("C19", "setup-failed", e.clone());
+            } else if out.ending != Ending::Completed {
+                v.fail("C19", "server-wedged:stuck", format!("{:?}: {:?}", out.ending, o.local_calls));
+            } else {
+                let ctx = format!("two remote clients lost their connections one after the other (calls in flight: {in_flight}); the local client's calls: {:?}; serve() running afterwards: {:?} ({:?})", o.local_calls, o.serve_running, o.serve_result);
+                if o.local_calls.iter().skip(1).any(|c| c.contains("hang") || c.contains("Err")) {
+                    v.fail("C19", "server-wedged:local-client-after-connection-losses", ctx.clone());
+                }
+                if o.serve_running == Some(false) {
+                    v.fail("C19", "serve-ended:connection-losses", ctx);
+                }
+            }
+            v.outcome = format!("{:?}|{:?}", o.local_calls, o.serve_running);
+            v.nontrivial = true;
+            v
+        });
+        (Box::pin(root), judge)
+    }
+}
+
+pub fn two_conn_scenarios() -> Vec<Arc<dyn Scenario>> {
+    let mut out: Vec<Arc<dyn Scenario>> = Vec::new();
+    for f in [Flavour::MValue, Flavour::SharedMut(false), Flavour::SharedMut(true)] {
+        for inflight in [false, true] {
+            out.push(Arc::new(TwoConnScenario { flavour: f, calls_in_flight: inflight }));
+        }
+    }
+    out
+}
+
 pub fn all_scenarios(tier: Tier) -> Vec<Arc<dyn Scenario>> {
-    scenarios(tier)
+    let mut v = scenarios(tier);
+    v.extend(two_conn_scenarios());
+    v
 }
 
 pub fn run(tier: Tier, seed: u64) -> i32 {
@@ -369,6 +514,8 @@ pub fn run(tier: Tier, seed: u64) -> i32 {
     let known = known_sigs("C19");
     let q = tier == Tier::Quick;
     let p = Params { max_dev: if q { 2 } else { 3 }, seeds: vec![seed, seed + 1], time_limit: Duration::from_secs(if q { 30 } else { 1200 }), ..Default::default() };
+    let p2 = Params { max_dev: if q { 0 } else { 1 }, seeds: vec![seed], time_limit: Duration::from_secs(if q { 8 } else { 300 }), ..Default::default() };
+    rep.add("clients on two connections lose them one after the other (with and without calls in flight) while a local client keeps calling", explore("C19", two_conn_scenarios(), p2, &known));
     rep.add("abandonment stage x cancellable/no_cancel x server flavour; failing item kind x position", explore("C19", scenarios(tier), p, &known));
     rep.rule = "a case = (server flavour, either: call future dropped before queueing / queued behind another call / executing at its first or second suspension point / with the reply in flight / caller connection cut, for a cancellable and a #[no_cancel] method; or: unknown method, undecodable arguments, request beyond max_request_size, reply beyond max_reply_size at position 0..2 among three calls; schedule deviations); oracle = execution log of the target object + results of another client's calls afterwards + serve() still running; distinct = distinct result tuples; non-trivial = the target executed at least one call".into();
     rep.assumptions = vec!["cancellation is required only after the server can have learned of it: the gate that lets the method continue is opened after two quiescence periods with the caller gone".into()];
